@@ -362,6 +362,75 @@ def h_adjust(n: int, r1a: bool, r2a: bool, n1a: bool, n2a: bool, r1b: bool, r2b:
     return vkopf.verdict(ok)
 
 
+def h_adjust_peering(n1b: bool, n2b: bool, conflict_ns1: bool, conflict_ns2: bool) -> bool:
+    """
+    post: _ == True
+    """
+    # Namespaced peering: every served namespace has its own "conflicts found" pause toggle. When a namespace stops being served
+    # its watchers, its peering tasks AND its pause toggle go: a namespace that is gone cannot keep the operator paused.
+    vkopf.begin_path()
+    loop = SymLoop()
+    PEERING = references.Resource('kopf.dev', 'v1', 'kopfpeerings', namespaced=True, kind='KopfPeering', verbs=frozenset(['list', 'watch', 'patch']))
+
+    async def dummy_processor(**kw):
+        return None
+
+    async def fake_forever(**kw):
+        await asyncio.Event().wait()
+
+    async def main():
+        orig = (queueing.watcher, peering.keepalive)
+        queueing.watcher = fake_forever
+        peering.keepalive = fake_forever
+        try:
+            settings = configuration.OperatorSettings()
+            settings.peering.name = 'default'
+            settings.peering.mandatory = True
+            settings.peering.namespaced = True
+            settings.peering.clusterwide = False
+            insights = references.Insights()
+            await insights.backbone.fill(resources=[PEERING])
+            paused = aiotoggles.ToggleSet(any)
+            ensemble = orchestration.Ensemble(operator_paused=paused, operator_indexed=aiotoggles.ToggleSet(all),
+                                              peering_missing=await paused.make_toggle(name='pm'))
+            insights.watched_resources.add(R1)
+            insights.namespaces.update({'ns1', 'ns2'})
+            await orchestration.adjust_tasks(processor=dummy_processor, insights=insights, settings=settings,
+                                             identity=peering.Identity('me'), ensemble=ensemble)
+            await asyncio.sleep(0)
+            # the peering observers have had their say: a conflicting peer in ns1 / ns2 or none
+            for key, toggle in ensemble.conflicts_found.items():
+                await toggle.turn_to(conflict_ns1 if key.namespace == 'ns1' else conflict_ns2)
+            first = paused.is_on()
+            insights.namespaces.clear()
+            if n1b:
+                insights.namespaces.add('ns1')
+            if n2b:
+                insights.namespaces.add('ns2')
+            await orchestration.adjust_tasks(processor=dummy_processor, insights=insights, settings=settings,
+                                             identity=peering.Identity('me'), ensemble=ensemble)
+            await asyncio.sleep(0)
+            left = {k.namespace for k in ensemble.conflicts_found}
+            res = (first, paused.is_on(), left, {k.namespace for k in ensemble.peering_tasks}, len(list(paused)))
+            await cancel_all_others()
+            return res
+        finally:
+            queueing.watcher, peering.keepalive = orig
+    first, paused_now, left, peer_ns, ntoggles = loop.run(main())
+    ok = first == (conflict_ns1 or conflict_ns2)
+    want_ns = {x for x, on in (('ns1', n1b), ('ns2', n2b)) if on}
+    if left != want_ns or peer_ns != want_ns:
+        ok = False
+    want_paused = (conflict_ns1 and n1b) or (conflict_ns2 and n2b)
+    if paused_now != want_paused:
+        ok = False
+    if ntoggles != 1 + len(want_ns):
+        ok = False                      # the "peering CRD is missing" toggle + one per served namespace, nothing stale
+    if (conflict_ns1 and not n1b) or (conflict_ns2 and not n2b):
+        vkopf.witness('paused_namespace_removed')
+    return vkopf.verdict(ok)
+
+
 def _snapshot(v1, v1pref, v1cat, v2, v2pref, v2cat, other):
     """The cluster's resources of group kopf.dev (+ optionally another group) as a discovery scan would report them."""
     verbs = frozenset(['list', 'watch', 'patch'])
@@ -508,6 +577,7 @@ def h_orchestrator(g1: int, g2: int, linger: int, r2a: bool, r2b: bool, r2c: boo
 
 
 def obligations():
+    _extra = [Ob('h_adjust_peering', {}, timeout=600, twins=['paused_namespace_removed'])]
     none = 7
     obs = []
     # quick: one fault kind per cell at a pinned position, symbolic change instants (gaps <= 30 s). The inactivity timer is
@@ -548,4 +618,4 @@ def obligations():
     obs += sample(Ob('h_orchestrator', {}, timeout=900, path_timeout=300, tiers=('thorough',)), 28, seed=193, na=[1, 3, 7], nb=[1, 2, 5], nc=[4, 6],
                   r2a=[False, True], r2b=[False, True], r2c=[False, True])
     obs.append(Ob('h_adjust', {'exclude_known': False, 'only_f10': True, 'pin': {'n': 2}}, expect='counterexample', finding='F10', timeout=600))
-    return obs
+    return obs + _extra
